@@ -101,6 +101,7 @@ def run(rep):
     observed, verdicts = sk.judge_cases(rep, core, 'C02', items, nontrivial)
     rep.extra['returned_normally'] = sum(1 for ev in observed if ev[-1]['returned'])
     rep.extra['user_function_systems'] = sum(1 for it in items if it['case']['funcs'])
+    steady_part(rep, [it['case'] for it in items])
     if rep.tier == 'thorough':
         harvest_part(rep)
 
@@ -174,6 +175,45 @@ def scale_items(rep):
         raise core.MachineryError('TLC emitted no behaviours for MC_SolverScales_quick.cfg')
     rep.extra['scale_declarations_replayed'] = len(decls)
     return [{'case': sk.scale_case(d), 'behaviour': d, 'whole': False} for d in decls]
+
+
+def steady_part(rep, cases):
+    """Whole solves with the initial-steady-state option on (the solver first searches a steady state with a working
+    copy at a looser tolerance, then solves): every SolveEquation() that returns normally is judged like a harvested
+    solve, at the tolerance the BLOCK states (not the one found on the parser afterwards)."""
+    from harness import pytest_harvest as ph
+    import warnings
+    records, tried = [], 0
+    pool = []
+    for c in cases:
+        if c.get('retry') or c.get('funcs') or not c.get('contractive'):
+            continue
+        pool.append(c)
+        if c['label'].startswith('random'):
+            # ... and the same system stating a tolerance far below the one of the search, in its block
+            pool.append(dict(c, label=c['label'] + ':tol1e-10', tol_param=None, tol_line='1e-10'))
+    for c in pool:
+        if c.get('tol_param') is not None or c.get('tol_line') is None:
+            continue
+        if sk.tolerance_of(c) > 1e-6 or sk.tolerance_of(c) <= 0:
+            continue
+        tried += 1
+        try:
+            with warnings.catch_warnings():
+                warnings.simplefilter('ignore')
+                s = sk._make_solver(c)
+                s.ParameterSolveInitialSteadyState = True
+                s.SolveEquation()
+        except Exception:
+            continue           # no steady state / refused: nothing is reported as solved
+        ph._STATE['test'] = 'steady-state-option:' + c['label']
+        rec = ph._record(s)
+        rec['tolerance'] = float(sk.tolerance_of(c))
+        records.append(rec)
+    rep.extra['steady_option_solves_tried'] = tried
+    rep.extra['steady_option_solves_returned'] = len(records)
+    if records:
+        sk.judge_harvest(rep, core, records)
 
 
 def harvest_part(rep):
